@@ -351,6 +351,50 @@ def replay_once(exe, prop, path, env_extra=None, timeout=600):
         return -999, 'timeout'
 
 
+def minimize_crash(exe, prop, path, env_extra, budget=90):
+    """Driver-side delta debugging for cases that kill the process (no in-process shrinking possible):
+    instruction words of a program case are replaced by the NOP-equivalent word while the replay still dies."""
+    kv = read_kv(path)
+    if 'prog' not in kv or 'nopword' not in kv:
+        return path
+    try:
+        prog = bytearray(bytes.fromhex(kv['prog']))
+        nop = bytes.fromhex(kv['nopword'])
+    except ValueError:
+        return path
+    lines = [l for l in open(path, errors='replace').read().split('\n') if l and not l.startswith('prog=')]
+    tmp = path + '.min'
+    used = [0]
+
+    def fails(p):
+        if used[0] >= budget:
+            return False
+        used[0] += 1
+        open(tmp, 'w').write('\n'.join(lines) + '\nprog=' + bytes(p).hex() + '\n')
+        rc, _ = replay_once(exe, prop, tmp, env_extra, timeout=150)
+        return rc != 0
+    n = (len(prog) - 128) // 8
+    span = n // 2
+    while span >= 1 and used[0] < budget:
+        for s0 in range(0, n, span):
+            cand = bytearray(prog)
+            changed = False
+            for i in range(s0, min(n, s0 + span)):
+                if cand[128 + 8 * i:136 + 8 * i] != nop:
+                    cand[128 + 8 * i:136 + 8 * i] = nop
+                    changed = True
+            if changed and fails(cand):
+                prog = cand
+        span //= 2
+    open(tmp, 'w').write('\n'.join(lines) + '\nprog=' + bytes(prog).hex() + '\n')
+    rc, _ = replay_once(exe, prop, tmp, env_extra, timeout=150)
+    if rc != 0:
+        os.replace(tmp, path)
+    else:
+        os.remove(tmp)
+    return path
+
+
 def merge_stats(all_stats):
     ev = 0
     labels = {}
@@ -363,7 +407,7 @@ def merge_stats(all_stats):
             continue
         ev += s.get('evaluations', 0)
         for k, v in s.get('labels', {}).items():
-            labels[k] = labels.get(k, 0) + v
+            labels[k] = max(labels.get(k, 0), v) if k.startswith('max:') else labels.get(k, 0) + v
         for h in s.get('nontrivial_hashes', []):
             nt.add(h)
         nt_extra += s.get('nontrivial_overflow', 0)
@@ -442,6 +486,8 @@ def run_check(prop, tier, seed):
                     if rrc != 0:
                         confirmed += 1
                 if confirmed == 3:
+                    if f.get('crash') and not any(v[0] for v in violations):
+                        minimize_crash(exe, prop, path, stage.get('env'))
                     k = matches_known(prop, path)
                     if k:
                         known_hits.append(k)
